@@ -1241,6 +1241,10 @@ def fail_events(model: TopoModel):
             for why, b in bads[:2]:
                 if why in ('connected', 'not-node-owned'):
                     ev.append(('fail', 'connect-bad', s, why, b))
+        for s_ in tops[:1]:
+            ev.append(('fail', 'peer-self', s_))
+        if len(tops) >= 2:
+            ev.append(('fail', 'peer-stale-service', tops[0], tops[1]))
         if 's1' in tops and 's2' in tops:
             ev.append(('fail', 'peer-twice', 's1', 's2'))
             for why in ('bad-labels', 'bad-labels-among-good', 'duplicate-id'):
@@ -1383,6 +1387,14 @@ def _do_fail(model: TopoModel, ev):
         else:
             _, _, s, why, b = ev
             model.service(s).connect_interface(resolve(why, b))
+    elif kind == 'peer-self':
+        a = model.service(ev[2])
+        a.peer(a)
+    elif kind == 'peer-stale-service':
+        a, b = model.service(ev[2]), model.service(ev[3])
+        t.remove_network_service(ev[3])          # a real call; the handle b taken before now dangles
+        model._stale_removed = True
+        a.peer(b)
     elif kind == 'peer-twice':
         a, b = model.service(ev[2]), model.service(ev[3])
         a.peer(b)
@@ -1585,6 +1597,8 @@ def _after_prefix(self, ev):
     self.restore(self._pre_snap)
     if ev[1] == 'peer-twice':
         self.service(ev[2]).peer(self.service(ev[3]))
+    elif ev[1] == 'peer-stale-service':
+        self.t.remove_network_service(ev[3])
     elif ev[1] == 'sub-duplicate-via-second-handle':
         sub = self.flavour != 'exp'
         self.port(*ev[2]).add_child_interface(name='subD', node_id='id-subD-1' if sub else None, labels=Labels(vlan='310'))
